@@ -163,6 +163,26 @@ func c20Health(r *core.Run, agentBin string, md *fakes.Metadata, c c20HealthCase
 		}
 		return cnt, when
 	}
+	// the t-th consecutive failure (after the first passing check) is the last check the agent ever makes: the checks are
+	// made one after another by one loop, which terminates the process right after that reply
+	{
+		cnt, seenP, at := 0, false, -1
+		for i, e := range evs {
+			if at >= 0 {
+				r.Violate("C20:health-check-after-threshold-reached", fmt.Sprintf("history %s (t=%d, %s): health reply %d was the %d. consecutive failure, yet the agent went on and made check %d %v later (a later passing check resets the count, so it may never exit)", c.Script, c.Threshold, c.Kind, at+1, c.Threshold, i+1, e.Sent.Sub(evs[at].Sent).Round(time.Millisecond)), c, nil)
+				break
+			}
+			switch {
+			case e.Pass:
+				seenP, cnt = true, 0
+			case seenP:
+				cnt++
+				if cnt == c.Threshold {
+					at = i
+				}
+			}
+		}
+	}
 	if !exitAt.IsZero() {
 		n, _ := trailing(exitAt)
 		seenPass := !firstPass.IsZero() && firstPass.Before(exitAt)
@@ -207,6 +227,7 @@ type c20ShutCase struct {
 	SecondAtMs      int    `json:"second_signal_at_ms,omitempty"`          // default 300
 	RejectFirstPost bool   `json:"first_response_post_rejected,omitempty"` // the proxy answers the first upload attempt of the in-flight request with 503
 	Shim            bool   `json:"shim_enabled,omitempty"`                 // the agent runs with --shim-path/--shim-websockets
+	ProxyTimeoutS   int    `json:"proxy_timeout_s,omitempty"`              // the agent runs with --proxy-timeout=<n>s (shorter than the period)
 	SlowStartMs     int    `json:"slow_start_ms,omitempty"`                // the agent's main goroutine is held up for this long where it registers its signal handler (hook utils.signals.install): a start-up schedule of a loaded machine
 	Health          bool   `json:"health_checks_enabled,omitempty"`        // the agent also runs health checks (1 s interval, threshold 2) against a backend that always passes them
 }
@@ -313,6 +334,9 @@ func c20Shutdown(r *core.Run, agentBin string, md *fakes.Metadata, c c20ShutCase
 	args := []string{}
 	if c.GraceS > 0 {
 		args = append(args, "--graceful-shutdown-timeout="+c.grace().String())
+	}
+	if c.ProxyTimeoutS > 0 {
+		args = append(args, fmt.Sprintf("--proxy-timeout=%ds", c.ProxyTimeoutS))
 	}
 	if c.Shim {
 		args = append(args, "--shim-path=shim", "--shim-websockets=true")
@@ -522,6 +546,9 @@ func c20Shutdown(r *core.Run, agentBin string, md *fakes.Metadata, c c20ShutCase
 	if c.SlowStartMs > 0 {
 		cls += "|signal-soon-after-a-slow-start"
 	}
+	if c.ProxyTimeoutS > 0 {
+		cls += "|proxy-timeout-shorter-than-the-period"
+	}
 	if !confirm {
 		r.Case(cls)
 	}
@@ -641,12 +668,17 @@ func C20(r *core.Run) {
 		add(2, "closed", "PFPFP")
 		add(3, "non200", "FPFFPFFP")
 		add(2, "non200", "P")
+		add(1, "non200", "PFP")  // the very first periodic check fails at threshold 1; a passing check would follow
 		add(3, "non200", "PSPP") // one check that is slow to fail, between passing ones: far from three consecutive failures
 	} else {
 		add(3, "non200", "PSPP")
 		add(3, "non200", "PSPSP")
 		add(2, "non200", "PSP")
 		add(3, "non200", "FPSSP")
+		for t := 1; t <= 3; t++ {
+			add(t, []string{"non200", "closed"}[t%2], "P"+strings.Repeat("F", t)+"P")
+			add(t, []string{"closed", "non200"}[t%2], "FP"+strings.Repeat("F", t)+"PP")
+		}
 		for t := 1; t <= 3; t++ {
 			for _, kind := range []string{"non200", "closed"} {
 				for k := 0; k <= 3; k++ {
@@ -701,6 +733,8 @@ func C20(r *core.Run) {
 	// starting its polling loop to its next statement: an agent that polls (and forwards) is an agent that shuts down gracefully
 	scs = append(scs, c20ShutCase{Name: fmt.Sprintf("s%d", len(scs)), Signal: "TERM", GraceS: 2, Phase: "idle", Finish: "inside", FinishS: 1, SlowStartMs: 1500},
 		c20ShutCase{Name: fmt.Sprintf("s%d", len(scs)+1), Signal: "INT", GraceS: 3, Phase: "at-backend", Finish: "inside", FinishS: 1, SlowStartMs: 1500})
+	// other time-outs of the agent are shorter than the period: the period is the period
+	scs = append(scs, c20ShutCase{Name: fmt.Sprintf("s%d", len(scs)), Signal: "TERM", GraceS: 4, Phase: "idle", Finish: "inside", FinishS: 1, ProxyTimeoutS: 2})
 	// a backend that stays busy far beyond the period (longer than the progress bound): the process still exits when the period ends
 	scs = append(scs, c20ShutCase{Name: fmt.Sprintf("s%d", len(scs)), Signal: "TERM", GraceS: 2, Phase: "at-backend", Finish: "outside", FinishS: 16})
 	// a period that is not a whole number of seconds, with the backend finishing in its last second; and a second signal during the period
